@@ -49,8 +49,9 @@ NAME_GRAMMARS = [
     ("silent-chain", 'a = _{ b ~ "1" }\nb = _{ c | "a" }\nc = _{ "b" ~ "b" }\nr = { a+ }\n', ("r",)),
     # case insensitive literals against letters whose Unicode case folding reaches ASCII (pest ignores ASCII case only),
     # an empty insensitive literal in a choice
-    ("folding-changes-length", "".join(f'a{i} = {{ ^"a{c}" | "a{c}b" }}\nb{i} = {{ "a{c}b" | ^"a{c}" | "a" }}\nc{i} = {{ (^"{c}a" | "{c}ab" | "b")+ }}\nd{i} = {{ ^"{c}" | "{c}b" }}\ne{i} = {{ (\'0\'..\'9\' | ^"{c}a" | "b")+ }}\nf{i} = {{ ASCII_DIGIT | "a" | ^"a{c}" }}\n' for i, c in enumerate("\u00df\u0130\ufb01\u212a\u0149")),
-     tuple(f"{r}{i}" for i in range(5) for r in "abcdef"), "ab1A\u00df\u0130\ufb01\u212a\u0149", 3),
+    *[(f"folding-changes-length({i})",
+       f'a = {{ ^"a{c}" | "a{c}b" }}\nb = {{ "a{c}b" | ^"a{c}" | "a" }}\nc = {{ (^"{c}a" | "{c}ab" | "b")+ }}\nd = {{ ^"{c}" | "{c}b" }}\ne = {{ (\'0\'..\'9\' | ^"{c}a" | "b")+ }}\nf = {{ ASCII_DIGIT | "a" | ^"a{c}" }}\n',
+       ("a", "b", "c", "d", "e", "f"), "ab1A" + c, 3) for i, c in enumerate("\u00df\u0130\ufb01\u212a\u0149")],
     ("case-folding", 'r = { (^"ss" | ^"x")+ }\nq = { (^"s" | ^"k" | "!")+ }\nt = { (^"" | "sk") ~ "s"? }\nu = { ^"k" ~ ^"ss"? }\n', ("r", "q", "t", "u"), "sSkK\u00df\u017f\u212a!x", 3),
 ]
 
@@ -226,9 +227,9 @@ def build_specs(tier: str):
         bodies = gast.exprs_upto(3 if tier == "thorough" else 2, terms, gast.U_CORE, ("seq", "alt"), gast.Env(HELPERS + families.TRIVIA[tv]))
         starts = [((), (m, body)) for body in bodies for m in ("", "@")]
         wide.extend(families.batch_specs(starts, families.TRIVIA[tv] + HELPERS, families.inputs(sigma, L), "zero", f"explicit-trivia({tv})"))
-    wide.extend(families.extra_specs("zero", tier))
+    wide.extend(families.extra_specs("zero", tier, short=True))
     wide.extend(families.skip_specs("zero", tier))
-    wide.extend(families.metachar_specs("zero", tier))
+    wide.extend(families.metachar_specs("zero", tier, sparse=True))
     wide.extend(families.builtin_specs("zero", tier))
     wide.extend(builtin_reuse_specs())
     wide.extend(range_merge_specs())
